@@ -1,5 +1,7 @@
 package gen
 
+import "strconv"
+
 // History generates long histories (C08/C09): mixed setters, arithmetic, Sqrt, SetPrec/SetMode,
 // raw access, over four registers that are reused and aliased, without re-loading in between.
 func History(g *G, nprog, steps int) []Program {
@@ -43,6 +45,8 @@ func History(g *G, nprog, steps int) []Program {
 				g.Emit(M{"op": "MantExp", "z": g.PickS(z, "nil"), "x": x})
 			case k < 94:
 				g.Emit(M{"op": "SetBitsExp", "z": z, "words": []any{g.word(), g.word()}, "e": itoa(int64(g.R.Intn(41) - 20))})
+			case k < 95:
+				g.Emit(M{"op": "SetFloat64", "z": z, "bits": strconv.FormatUint(g.f64bits(), 10)})
 			case k < 96:
 				g.Emit(M{"op": "New", "z": z})
 			case k < 98:
